@@ -75,11 +75,6 @@ Definition parse_out (s : bytes) : option (txout * option Z) :=
 
 (* the secrets list Transaction::blind is given: each spent output followed by its explicit issuance pseudo-inputs,
    i.e. the order in which verify_tx_amt_proofs builds its domain *)
-Definition iss_secrets (i : txin) : list secrets :=
-  if has_issuance i then
-    (match is_amount (in_iss i) with VExp v => [mkSec (is_asset (in_iss i)) 0 v 0] | _ => [] end)
-    ++ (match is_keys (in_iss i) with VExp v => [mkSec (is_token (in_iss i)) 0 v 0] | _ => [] end)
-  else [].
 Definition all_secrets (l : list (txout * secrets * txin)) : list secrets :=
   flat_map (fun e => snd (fst e) :: iss_secrets (snd e)) l.
 
